@@ -20,6 +20,7 @@ PROP = {  # substring of the commit subject -> property whose check must catch t
  "split with a RegExp emitted an extra": "C20",
  "String objects ignored own properties": "C04", "character index of a String object": "C04", "getOwnPropertyDescriptor trap returning an accessor": "C11",
  "set with an empty typed-array source": "C17", "new DataView(buffer, offset, length)": "C17", "ArrayBuffer.prototype.slice did not throw": "C17",
+ "searching for the empty string beyond the end": "C06", "ToFloat/ToInteger of strings disagreed": "C05", "a sign after a radix prefix": "C05", "U+0085 (NEL) is not ECMAScript": "C05", "[-0].includes(0) was false": "C07",
  "copyWithin did not clamp": "C17", "set(arrayLike)": "C17", "ignored the match limit": "C20", "carried into the sign": "C12",
 }
 log = subprocess.run("git -C /repo log --format='%h %s' --grep='^fix:'", shell=True, capture_output=True, text=True).stdout.splitlines()
